@@ -625,10 +625,12 @@ class KlongInterpreter():
         f_arity = x.arity
         f_args = [None] if x.args is None else [x.args if isinstance(x.args, list) else [x.args]]
 
-        # three passes as there are max three argumentes: x,y, and z
-        f, f_args, f_arity = self._resolve_fn(f, f_args, f_arity)
-        f, f_args, f_arity = self._resolve_fn(f, f_args, f_arity)
-        f, f_args, f_arity = self._resolve_fn(f, f_args, f_arity)
+        # a projection of a projection of ... : resolve until the underlying function is reached
+        for _ in range(16):
+            nf, f_args, f_arity = self._resolve_fn(f, f_args, f_arity)
+            if nf is f:
+                break
+            f = nf
 
         f_args.reverse()
         f_args = merge_projections(f_args)
